@@ -1,7 +1,7 @@
 (* Property C12 — derived units partition correctly. *)
 From Coq Require Import ZArith Bool List.
 From Coq Require Import Permutation.
-From GettsimModel Require Import Num Val Groupings CoupleSpec.
+From GettsimModel Require Import Num Val Groupings CoupleSpec FgSpec.
 Import ListNotations.
 Open Scope Z_scope.
 
@@ -97,3 +97,30 @@ Print Assumptions C12_couple_wf_decidable.
 
 Theorem C12_hypotheses_satisfiable : couple_wf ehep demo /\ couple_wf einst demo /\ flags_agree demo.
 Proof. exact demo_wf. Qed.
+
+(* FAMILY UNITS, UNBOUNDED (tables of any size): with unique non-negative person ids, symmetric co-resident
+   partner pointers, eligible children (under 25, childless, living with a parent) without a partner and whose
+   co-resident parents are one person or partners, two rows get the same fg id exactly when their family
+   heads — the person itself, or a co-resident parent of an eligible child — are the same person or partners.
+   Proved by an invariant over the dictionary loop of the builder (FgSpec.Inv). *)
+Theorem C12_fg_id_spec : forall all, fg_wf all ->
+  length (fg_id all) = length all /\
+  forall i j a b, nth_error all i = Some a -> nth_error all j = Some b ->
+    (nth_error (fg_id all) i = nth_error (fg_id all) j <-> same_family all a b).
+Proof. exact fg_id_spec. Qed.
+Print Assumptions C12_fg_id_spec.
+
+Theorem C12_fg_id_order_free : forall ps ps', fg_wf ps -> Permutation ps ps' ->
+  forall i j i' j' a b,
+    nth_error ps i = Some a -> nth_error ps j = Some b -> nth_error ps' i' = Some a -> nth_error ps' j' = Some b ->
+    (nth_error (fg_id ps) i = nth_error (fg_id ps) j <-> nth_error (fg_id ps') i' = nth_error (fg_id ps') j').
+Proof. exact fg_id_order_free. Qed.
+Print Assumptions C12_fg_id_order_free.
+
+Theorem C12_fg_wf_decidable : forall all, fg_wf_b all = true -> fg_wf all.
+Proof. exact fg_wf_b_sound. Qed.
+Print Assumptions C12_fg_wf_decidable.
+
+(* satisfiable, on the row order in which the unrepaired builder failed *)
+Theorem C12_fg_hypotheses_satisfiable : fg_wf fg_demo /\ fg_id fg_demo = [1; 1; 1; 1; 2; 3; 3; 4].
+Proof. exact fg_demo_ok. Qed.
